@@ -364,7 +364,7 @@ def _trace_key(inp, obs, clause, nth=0):
 # ------------------------------------------------------------------ run
 def run(ctx):
     slices = QUICK if ctx.quick else THOROUGH
-    per_slice = 1200 if ctx.quick else 50000
+    per_slice = 1000 if ctx.quick else 35000
     pool_cases = None
     for sl in slices:
         history = sl.startswith("hist")
@@ -416,7 +416,7 @@ def run(ctx):
     pool = Pool(pool_cases)
     if len(pool.rx) < 8:
         raise core.MachineryFailure("pool reconstruction from single-reaction cases found %d reactions" % len(pool.rx))
-    n = 1200 if ctx.quick else 12000
+    n = 1000 if ctx.quick else 9000
     gens = [gen_trace(pool, ctx.rng, 4) for _ in range(n)]
     outs = ctx.pmap(run_trace, gens)
     for o in outs:
